@@ -1,5 +1,6 @@
 (** C07 — property theorems only. *)
-From V Require Import Base.Util Gql.Ast Peg.Peg Gen.C07_grammar_gen C07.Builder C07.Model C07.AstEq C07.Spec C07.Proofs C07.Lexical C07.Strings C07.Numbers C07.Fuel.
+From V Require Import Base.Util Gql.Ast Peg.Peg Gen.C07_grammar_gen C07.Builder C07.Model C07.AstEq C07.Spec C07.Proofs C07.Lexical C07.Strings C07.Numbers C07.Fuel C07.Shapes C07.Render.
+From V Require Import Peg.PegShape.
 From V Require Import Peg.PegProps.
 
 Theorem C07_positions_true : forall inp file (p : pair rule),
@@ -140,3 +141,25 @@ Theorem C07_parse_never_fuel : forall file inp,
   parse_operation_document file inp <> PFuel /\ parse_type_system_document file inp <> PFuel.
 Proof. intros file inp. split; [apply parse_operation_document_never_fuel|apply parse_type_system_document_never_fuel]. Qed.
 Print Assumptions C07_parse_never_fuel.
+
+(** child-sequence shapes: for every input, start rule and pair of the tree, the pair's children (rule
+    names, left to right) are accepted by the automaton of the pattern with which the builder of that rule
+    reads them (parts! / all_children / only_child+match; table Shapes.pattern_of, all rules) *)
+Theorem C07_builder_shapes_ok : forall inp start ps r s e kids,
+  parse_pairs start inp = Ok ps ->
+  in_forest (Pair r s e kids) ps ->
+  accepts (pattern_of r) (rules_of kids) = true.
+Proof. exact builder_shapes_ok. Qed.
+Print Assumptions C07_builder_shapes_ok.
+
+(** parse_render (partial: type expressions): every well-formed type expression rendered with arbitrary
+    whitespace trivia in every gap, in any surroundings that may follow a type, is parsed to one Type pair
+    over exactly its text, and the builder returns the type it denotes *)
+Theorem C07_parse_render_type : forall t pre rest file, wf_rty t = true -> follow_ty rest ->
+  let inp := pre ++ render_ty t ++ rest in
+  let i := slen pre in
+  runs gql_grammar true ANon (Call R_Type) (render_ty t ++ rest) i
+       (Ok (rest, (i + slen (render_ty t))%N, [ty_tree t i]))
+  /\ exists ty', build_type inp file (ty_tree t i) = BOk ty' /\ ty_erase ty' = erase_rty t.
+Proof. exact parse_render_type. Qed.
+Print Assumptions C07_parse_render_type.
